@@ -3,7 +3,7 @@
 Three small specifications are enumerated by TLC and used as case generators with their expected answers:
 PathStrP (join / getPathName / getParentDirectory laws over all directory strings of <= 4 characters from
 {'/','a','b','.',' '} and names of <= 2 characters), PathTreeP (every directory tree of <= 4 nodes below the
-root, depth <= 3, names with a space, a leading dot, two leading dots and non-ASCII bytes, file sizes 0/1/5000) and VisitorP
+root, depth <= 3, names with a colon in second position, a space, a leading dot, two leading dots and non-ASCII bytes, file sizes 0/1/5000) and VisitorP
 (nested DirectoryVisitors as a stack of saved working directories). The harness materialises each case and
 compares the real answers, cross-checked against std::filesystem. Exploration level.
 """
@@ -14,7 +14,7 @@ from lib.common import log
 
 SPEC = common.SPEC / "fs"
 FLAGS = ["-O1", "-g", "-UNDEBUG", "-fsanitize=address,undefined", "-fno-sanitize=nonnull-attribute", "-fno-omit-frame-pointer"]
-NAMES = {1: "a", 2: ".b c", 3: "..xé"}
+NAMES = {1: "a:b", 2: ".b c", 3: "..xé"}
 SIZES = {"f0": 0, "f1": 1, "f5000": 5000}
 ASSUMPTIONS = [
     "POSIX paths with '/' as the only separator; no symlinks or special files; trees are private scratch directories",
@@ -39,7 +39,8 @@ def check(pid, tier, seed):
     scratch.mkdir(parents=True, exist_ok=True)
     mcs = [common.model_check(SPEC, "MC_PathStr.tla", "MC_PathStr.cfg", "PathStrP"),
            common.model_check(SPEC, "MC_PathTree.tla", "MC_PathTree.cfg", "PathTreeP", heap="8g"),
-           common.model_check(SPEC, "VisitorP.tla", "MC_Visitor.cfg", "VisitorP")]
+           common.model_check(SPEC, "VisitorP.tla", "MC_Visitor.cfg", "VisitorP"),
+           common.model_check(SPEC, "VisitorP.tla", "MC_VisitorScoped.cfg", "VisitorP scoped use")]
     evaluations = 0
     distinct = set()
     samples = []
@@ -135,33 +136,77 @@ def check(pid, tier, seed):
             verdict.violation("path[tree] %s" % " ".join(prob.split(":")[-1].split()[:3]), prob, {"component": "path", "part": "tree", "tree": desc})
     samples.append({"part": "tree", "tree": sorted(("/".join(NAMES[i] for i in p), k) for p, k in list(meta.values())[len(meta) // 2].items() if p)})
     # ---- (c) nested visitors ---------------------------------------------------------------
-    dot, _ = common.dump_graph(SPEC, "VisitorP.tla", "MC_Visitor.cfg", "VisitorP")
+    vcfg = "MC_Visitor.cfg" if tier == "quick" else "MC_Visitor_thorough.cfg"
+    dot, _ = common.dump_graph(SPEC, "VisitorP.tla", vcfg, "VisitorP-" + vcfg)
     g = common.load_graph(dot)
     paths, covered = pathcover.cover(g, max_len=12)
     lines = []
+
+    def vstep(ei):
+        _, _, name, args = g.edges[ei]
+        if name in ("Construct", "Chdir"):
+            return "S op=%s d=%d" % (name, args[0])
+        if name == "SetDir":
+            return "S op=SetDir v=%d d=%d" % (args[0], args[1])
+        if name in ("Visit", "Restore"):
+            return "S op=%s v=%d" % (name, args[0])
+        return "S op=Destroy"
+
     for pi, path in enumerate(paths):
         lines.append("X v%d mode=visitor dir=%s" % (pi, scratch))
-        for ei in path:
-            _, _, name, args = g.edges[ei]
-            lines.append("S op=Construct d=%d" % args[0] if name == "Construct" else "S op=Destroy")
+        lines += [vstep(ei) for ei in path]
         lines.append("E")
     res = common.run_harness(exe, "\n".join(lines) + "\n")
+    vdrift = []
     for pi, path in enumerate(paths):
         recs = {r["i"]: r for r in res.get("v%d" % pi, []) if r.get("e") == "Cwd"}
         evaluations += 1
         distinct.add(("visitor", tuple(g.edges[ei][2] + str(g.edges[ei][3]) for ei in path)))
+        # the property's own oracle works on OBSERVED directories only: destroying a visitor leads back to the directory that was
+        # observed just before its last effective visit() (if restore() was called since, staying put is accepted as well);
+        # destroying one that never visited changes nothing. Everything else is compared with VisitorP and reported as drift.
+        seen = 0            # observed cwd before the step
+        vis = []            # per live visitor: dict(dir, before, fresh) / None
         for i, ei in enumerate(path):
-            st = g.states[g.edges[ei][1]]
+            _, dstn, name, args = g.edges[ei]
+            st = g.states[dstn]
             r = recs.get(i)
-            if r is None or r["cwd"] != st["cwd"] or not r["agree"]:
-                ops = ["%s%s" % (g.edges[e][2], tuple(g.edges[e][3]) if g.edges[e][3] else "") for e in path[:i + 1]]
-                verdict.violation("path[visitor] cwd after %s" % g.edges[ei][2], "after %s the working directory is %s, the stack of visitors says %s" %
-                                  (ops, r["cwd"] if r else None, st["cwd"]), {"component": "path", "part": "visitor", "history": ops})
+            ops = ["%s%s" % (g.edges[e][2], tuple(g.edges[e][3]) if g.edges[e][3] else "") for e in path[:i + 1]]
+            if r is None or not r["agree"]:
+                verdict.violation("path[visitor] stopped at %s" % name, "after %s: %s" % (ops, r), {"component": "path", "part": "visitor", "history": ops})
                 break
+            now = r["cwd"]
+            if name == "Construct":
+                vis.append({"dir": args[0], "before": seen if args[0] else None, "fresh": True})
+                if args[0] and now != args[0]:
+                    verdict.violation("path[visitor] cwd after Construct", "after %s the working directory is %s, not the visited directory %s" % (ops, now, args[0]),
+                                      {"component": "path", "part": "visitor", "history": ops})
+                    break
+            elif name == "SetDir":
+                vis[args[0] - 1]["dir"] = args[1]
+            elif name == "Visit":
+                v = vis[args[0] - 1]
+                if v["dir"]:
+                    v["before"], v["fresh"] = seen, True
+            elif name == "Restore":
+                vis[args[0] - 1]["fresh"] = False
+            elif name == "Destroy":
+                v = vis.pop()
+                ok = (now == seen) if v["before"] is None else (now == v["before"] or (not v["fresh"] and now == seen))
+                if not ok:
+                    verdict.violation("path[visitor] cwd after Destroy", "after %s the working directory is %s; before the visitor's last visit() it was %s" %
+                                      (ops, now, v["before"] if v["before"] is not None else "%s (and the visitor never visited)" % seen),
+                                      {"component": "path", "part": "visitor", "history": ops})
+                    break
+            if now != st["cwd"] and not vdrift:
+                vdrift.append("after %s the working directory is %s, VisitorP says %s" % (ops, now, st["cwd"]))
+            seen = now
+    if vdrift:
+        log("DRIFT property=%s DirectoryVisitor deviates from VisitorP: %s" % (pid, vdrift[0]))
     samples.append({"part": "visitor", "history": ["%s%s" % (g.edges[e][2], tuple(g.edges[e][3]) if g.edges[e][3] else "") for e in paths[0]]})
     log("[%s] %d string cases, %d trees, %d visitor histories" % (pid, len(cases), len(meta), len(paths)))
     cov = {"evaluations": evaluations, "distinct_nontrivial": len(distinct),
-           "rule": "cases = TLC-enumerated states of PathStrP (15600 (directory, name) pairs), PathTreeP (directory trees; a stride sample in quick, all in thorough) and a path "
+           "rule": "cases = TLC-enumerated states of PathStrP (46620 (directory, name) pairs over the characters / a b . space :), PathTreeP (directory trees; a stride sample in quick, all in thorough) and a path "
                    "cover of VisitorP's graph; distinct_nontrivial = distinct (trailing separator, absolute, lengths) string classes + distinct (node count, depth, kinds) tree shapes + visitor histories",
            "samples": samples, "states": sum(m["distinct_states"] for m in mcs), "model_checks": mcs}
     rc = verdict.finish()
